@@ -127,8 +127,10 @@ def body_c17(tier, seed, rep, only_prop=False, scale=1):
         length = {"second": 1000, "minute": 60000, "hour": 3600000, "day": DAY, "week": 7 * DAY, "month": 30 * DAY, "year": 365 * DAY}[u]
         t1 = min(HI, t0 + int(length * rng.choice([0, 0.5, 1, 2.5, 10, 60, 400, rng.uniform(0, 2500)])))
         dt = rng.choice([1, 1, 2, 3, 4, 5, 6, 7, 10, 12])
-        meta = {"kind": "calrange", "unit": u, "t0": t0, "t1": t1, "dt": dt}
-        guarded(lambda: "calrange|%s|%d|%d|%d|%s" % (u, t0, t1, dt, msl(d3[u].range(to_dt(t0), to_dt(t1), dt))), meta)
+        # one call in four is a repeat: the same range was enumerated before and the caller edited the list it got back
+        again = rng.choice([None, None, None, None, None, "reverse", "pop", "append", "clear"])
+        meta = {"kind": "calrange", "unit": u, "t0": t0, "t1": t1, "dt": dt, "again": again}
+        guarded(lambda: "calrange|%s|%d|%d|%d|%s" % (u, t0, t1, dt, msl(cal_range(d3, u, t0, t1, dt, again))), meta)
     answers = drive(lines)
     for line, meta, ans in zip(lines, metas, answers):
         f = fields(ans)
@@ -140,6 +142,22 @@ def body_c17(tier, seed, rep, only_prop=False, scale=1):
         if bad:
             # floor/ceil/round/offset/range have exactly one right answer (Props/C17 prove the model gives it): a different answer is a failing input
             rep.prop_fail.append(("calendar %s differs from the proved model: %s" % ("/".join(bad), ans), {"case": meta, "driver_line": line, "driver_answer": ans}))
+
+
+def cal_range(d3, u, t0, t1, dt, again):
+    """`range(start, stop, step)` of a calendar unit; with `again`, what the SECOND identical request returns after the caller edited the first answer"""
+    got = d3[u].range(to_dt(t0), to_dt(t1), dt)
+    if again is None:
+        return got
+    if again == "reverse":
+        got.reverse()
+    elif again == "pop":
+        del got[:2]
+    elif again == "append":
+        got.append(to_dt(t1))
+    elif again == "clear":
+        del got[:]
+    return d3[u].range(to_dt(t0), to_dt(t1), dt)
 
 
 def quick_skip(tier, dn):
@@ -167,7 +185,8 @@ def gen_time_history(rng):
             a, b = gen_domain(rng)
             ops.append(("domain", i, a, b))
         elif c < 0.7:
-            ops.append(("ticks", i, rng.choice([None, 10, 5, 10, 3])))
+            # "ticks!": the caller edits the list it got back (it is the caller's list) — a later answer must not show the edit
+            ops.append((rng.choice(["ticks", "ticks!"]), i, rng.choice([None, 10, 5, 10, 3])))
         elif c < 0.8:
             ops.append(("nice", i, rng.choice([None, 10, 5])))
         elif c < 0.9:
@@ -199,8 +218,12 @@ def run_time_history(ops, m):
             s.nice(o[2]) if o[2] is not None else s.nice()
         elif o[0] == "copy":
             objs.append(s.copy())
-        elif o[0] == "ticks":
-            s.ticks(o[2]) if o[2] is not None else s.ticks()
+        elif o[0] in ("ticks", "ticks!"):
+            got = s.ticks(o[2]) if o[2] is not None else s.ticks()
+            if o[0] == "ticks!" and isinstance(got, list):
+                got.reverse()
+                del got[:1]
+                got.append(to_dt(0))
         elif o[0] == "call":
             s(to_dt(o[2]))
     out = []
@@ -229,7 +252,7 @@ def body_c16(tier, seed, rep, only_prop=False, scale=1):
     # the ticks must be those of the domain the scale reports NOW, whatever happened before to this object and to its copies
     for _ in range(common.count(tier, 1500, 20000) * scale):
         ops = gen_time_history(rng)
-        used = [o[2] for o in ops if o[0] == "ticks"]
+        used = [o[2] for o in ops if o[0] in ("ticks", "ticks!")]
         m = rng.choice(used) if used and rng.random() < 0.7 else rng.choice([None, 10, 5, 3])
         meta = {"kind": "tticks-history", "ops": ops, "m": m}
         try:
@@ -366,7 +389,7 @@ def replay_case(pid, replay):
     if m["kind"] == "cal":
         line = run_cal_case(d3, m["unit"], m["t"], m["k"])
     elif m["kind"] == "calrange":
-        line = "calrange|%s|%d|%d|%d|%s" % (m["unit"], m["t0"], m["t1"], m["dt"], msl(d3[m["unit"]].range(to_dt(m["t0"]), to_dt(m["t1"]), m["dt"])))
+        line = "calrange|%s|%d|%d|%d|%s" % (m["unit"], m["t0"], m["t1"], m["dt"], msl(cal_range(d3, m["unit"], m["t0"], m["t1"], m["dt"], m.get("again"))))
     elif m["kind"] == "tticks":
         s = TimeScale().domain([to_dt(m["d0"]), to_dt(m["d1"])])
         tk = s.ticks(m["m"]) if m["m"] is not None else s.ticks()
